@@ -281,6 +281,61 @@ def size_trigger_rule(F, G, rep, R):
            "io::slippi::de::handle_splitter_event", "prefix", "the splitter payload must be read as a 516-byte prefix (longer payloads accepted), not asserted to be exactly 516")
 
 
+def trailing_rule(F, rep):
+    """whatever follows the first Game End inside the raw element (a doubled Game End, unknown events, junk) is *consumed in
+    full*: under `bytes_read < raw_len` read() reads exactly raw_len - bytes_read bytes from the stream, so the element
+    terminator is read at the right place however long the trailing content is"""
+    import linear
+    b = F.body("io::slippi::de::read")
+    root = b["tir"]["value"]
+    env = tir.LetEnv(root)
+    hit = None
+    cands = []       # (node, lo, hi, branch taken when lo < hi)
+    for n in tir.walk(root):
+        if n.get("k") == "If":
+            c = strip(n["cond"])
+            if c.get("k") == "Binary" and c.get("op") in ("Lt", "Gt"):
+                lo, hi = (c["l"], c["r"]) if c["op"] == "Lt" else (c["r"], c["l"])
+                cands.append((n, lo, hi, n["then"]))
+        elif n.get("k") == "Match":
+            # match bytes_read.cmp(&raw_len) { Ordering::Less => { .. } .. }
+            sc = strip(n["scrut"])
+            if sc.get("k") == "MethodCall" and sc["method"] == "cmp" and len(sc.get("args", [])) == 1:
+                for a in n["arms"]:
+                    pt = tir.pat(a["pat"])
+                    if pt.endswith("Less"):
+                        cands.append((n, sc["recv"], sc["args"][0], a["body"]))
+                    elif pt.endswith("Greater"):
+                        cands.append((n, sc["args"][0], sc["recv"], a["body"]))
+    for n, lo, hi, branch in cands:
+        if not ((tir.place(strip(lo)) or "").endswith("bytes_read") and (L.local_name(strip(hi)) or "") and "raw" in (L.local_name(strip(hi)) or "")):
+            continue
+        hit = n
+        reads = [x for x in tir.walk(branch) if x.get("k") == "MethodCall" and x["method"] == "read_exact" and (declared(x) or "").endswith("Read::read_exact")]
+        ok = False
+        why = "%d read_exact calls under the condition" % len(reads)
+        if len(reads) == 1:
+            buf = env.resolve(strip(reads[0]["args"][0]))
+            ln = None
+            if buf.get("k") == "Call" and tir.in_macro(buf, "vec") and len(buf.get("args", [])) == 2:
+                ln = buf["args"][1]
+            elif buf.get("k") == "Call" and (declared(buf) or "").endswith("from_elem") and len(buf.get("args", [])) == 2:
+                ln = buf["args"][1]
+            if ln is not None:
+                try:
+                    form = linear.lin(env.resolve(ln))
+                    want = linear.add(linear.lin(hi), linear.lin(lo), -1)
+                    ok = linear.eq(form, want)
+                    why = "the buffer holds %s bytes, the trailing content is %s" % (linear.show(form), linear.show(want))
+                except linear.NonLinear as e:
+                    why = "buffer length outside the linear fragment: %s" % e
+            else:
+                why = "the buffer is not `vec![0; n]`"
+        rep.ob("trailing.consumed", ok, "io::slippi::de::read", "trailing", "the bytes after the first Game End must be read in full (%s)" % why, tir.sp(n))
+        break
+    rep.ob("trailing.present", hit is not None, "io::slippi::de::read", "trailing.branch", "read() has no `bytes_read < raw_len` branch consuming what follows the first Game End")
+
+
 def run(F, rep, tier):
     from props import C10
     C10.same_version_rule(F, rep)
@@ -292,6 +347,11 @@ def run(F, rep, tier):
     prefix_readers_rule(F, G, rep, R)
     monotone_rule(F, G, rep, R)
     size_trigger_rule(F, G, rep, R)
+    trailing_rule(F, rep)
+    # the payload table is read whole, whatever its declared length (up to 84 pairs): what parse_payloads consumes is the
+    # declared size (C12's accounting by linear forms; a fixed-capacity buffer falls outside it)
+    from props import C12 as _C12
+    _C12.accounting_rule(F, rep)
     muts = mutations(F.body("io::slippi::de::parse_event")["tir"]["value"])
     rep.control("mutation extractor sees the writes of parse_event", len(muts) >= 10 and any((p or "").startswith("state.game") for p, _ in muts))
     rep.trusted += ["Vec/slice cursor semantics: read_* on `&mut &[u8]` consumes a prefix and leaves the rest untouched"]
